@@ -1038,11 +1038,11 @@ class Node:
         origin_host, recv_time = self._origin_waiting_answer[message_id]
         process_time = time.time() - recv_time
 
-        if origin_host not in self._sent_answers:
-            self._sent_answers[origin_host] = deque(
-                maxlen=self.retransmit_queue_size)
-        
-        self._sent_answers[origin_host].append(message.header.end_to_end_identifier)
+        # setdefault, as two threads may record their first answers towards
+        # the same origin at the same time
+        self._sent_answers.setdefault(
+            origin_host, deque(maxlen=self.retransmit_queue_size)
+        ).append(message.header.end_to_end_identifier)
 
         del self._origin_waiting_answer[message_id]
 
